@@ -1,20 +1,11 @@
 import Driver.Proto
 import XsdataModel.Tables
 import XsdataModel.Xml.Writer
+import XsdataModel.Xml.TblNsEnv
 import XsdataModel.Spec.XmlNs
 open Lean Proto Py Xs.Ns Xs.Sax Xs.Writer Spec.XmlNs
 
 namespace OpsXml
-
-/-- the environment the driver runs with: the tables regenerated from /repo -/
-def tblNsEnv : NsEnv where
-  enum := Tables.nsEnum
-  dataTypeQNames := Tables.dataTypeQNames
-  xsiType := Tables.qnXsiType
-  xsiNil := Tables.xsiNilTuple
-  xsiSchemaLocation := Tables.qnXsiSchemaLocation
-  xsiNoNsSchemaLocation := Tables.qnXsiNoNamespaceSchemaLocation
-  saxXmlNs := Tables.saxXmlNamespace
 
 def asAtom (j : Json) : Except String Atom :=
   match j with
